@@ -28,6 +28,10 @@
    ostep     vr s e fp wv op : result (ostate * list omsg)       (total function)
    omsg      (from MinterVending) OBank m | OMintNft token_id owner | OTrading t
 
+   nft_cfg   mkNft  onchain uri ext      (metadata mode layer, end of the OE part of the file:
+   omint     mkOMint id owner uri ext     Config.nft_data is read only to fill the collection's
+   ostep_nft c vr s e fp wv op            Mint message; `ostep` itself never sees it)
+
    bstate    mkBS   price token_index minted trading      (minted, trading ghosts)
    bop       BMint uri_ok | BUpdateStartTradingTime t
    bstep     s e creator fee_bps op : result (bstate * list omsg)
@@ -446,3 +450,41 @@ Definition bstep (s : bstate) (e : env) (creator : option addr) (fee_bps : N) (o
                end
       end
   end.
+
+(* ================= NFT metadata mode of an open edition =================
+   Config.nft_data is fixed at creation and read by the handlers in exactly one place:
+   `_execute_mint` copies either the configured token_uri (OffChainMetadata, collection
+   code sg721-base) or the configured extension (OnChainMetadata, collection code
+   sg721-metadata-onchain) into the collection's Mint message.  It is therefore kept OUT
+   of `ostate` / `ostep` (whose users need not care) and layered on top:
+     nft_cfg   mkNft  onchain uri ext      (ids of the configured token_uri / extension text)
+     omint     mkOMint id owner uri ext    (what the collection is asked to store)
+     ostep_nft c vr s e fp wv op : result (ostate * list omsg * list omint)
+   The harness owns the bijection id <-> text (uri string, canonical JSON of the extension). *)
+Record nft_cfg := mkNft { nft_onchain : bool; nft_uri : option N; nft_ext : option N }.
+
+Record omint := mkOMint { om_id : N; om_owner : addr; om_uri : option N; om_ext : option N }.
+
+(* open-edition-factory NftData::validate: exactly one of token_uri / extension, matching the mode *)
+Definition o_nft_valid (c : nft_cfg) : bool :=
+  match nft_uri c, nft_ext c with
+  | Some _, None => negb (nft_onchain c)
+  | None, Some _ => nft_onchain c
+  | _, _ => false
+  end.
+
+(* (token_uri, extension) of the Mint message *)
+Definition o_nft_payload (c : nft_cfg) : option N * option N :=
+  if nft_onchain c then (None, nft_ext c) else (nft_uri c, None).
+
+Definition o_nfts (ms : list omsg) : list (N * addr) :=
+  flat_map (fun m => match m with OMintNft t o => [(t, o)] | _ => [] end) ms.
+
+Definition o_mints_of (c : nft_cfg) (ms : list omsg) : list omint :=
+  map (fun p => mkOMint (fst p) (snd p) (fst (o_nft_payload c)) (snd (o_nft_payload c))) (o_nfts ms).
+
+Definition ostep_nft (c : nft_cfg) (vr : ovariant) (s : ostate) (e : env) (fp : ofparams) (wv : option wlview)
+           (o : eop) : result (ostate * list omsg * list omint) :=
+  do r <- ostep vr s e fp wv o;
+  let '(s', ms) := r in
+  Ok (s', ms, o_mints_of c ms).
